@@ -119,6 +119,11 @@ def case_basis(shape, dx, dtype):
         fscale = max(np.abs(f0).max(), 1e-300)
         if kind == "dense":
             ctl = (uu, target, fscale)
+            u_p = np.full(shape, np.nan, dtype=dtype)
+            solver.solve(u_p, f0.copy())  # positional call in the documented order (solution, right-hand side)
+            trans += 1
+            if not np.array_equal(u_p, u):
+                fails.append(Fail(f"{tag}:positional-call", "solve(solution, rhs) called positionally differs from the keyword call", shape=shape, dtype=dtype))
         # mean(u) compared with the size of u (||u|| ~ dx^2 n^2 ||f||)
         uscale = fscale * dx**2 * max(shape) ** 2
         worst = max(worst, res / (tol * fscale))
